@@ -137,3 +137,12 @@ void Tolerances::setFloatingPointOpttol(Real otol)
 }
 // namespace soplex
 }
+
+#ifdef SOPLEX_VERIF_HOOKS
+#include "soplex/verifhooks.h"
+extern "C"
+{
+   void (*soplex_verif_point_fn)(int site) = nullptr;
+   int (*soplex_verif_buggify_fn)(int site) = nullptr;
+}
+#endif
